@@ -543,6 +543,27 @@ def loop_ctx(rng, variant):
         r2 = s.op('r', end='A', addr='nowhere')
         s.wait([r2])
         s.ctl('q')
+    elif variant.startswith('lost-reply'):
+        # the peer serves the POST (the envelope is with its reader) but the answer is lost on the way back: the
+        # Write fails, its connection is closed - and the envelope is NOT posted again (delivered once, not twice)
+        n = int(variant.split('-')[-1])
+        for k in range(n):          # ordinary traffic first
+            r = s.op('r', end='B', addr='A')
+            w = s.op('w', end='A', addr='B', v=hval(g, 'srcA', small=True))
+            s.wait([w, r])
+        s.ctl('losereply', end='B')
+        r = s.op('r', end='B', addr='A')
+        w = s.op('w', end='A', addr='B', v=hval(g, 'srcA', small=True))
+        s.wait([w, r], ms=10000)
+        s.ctl('sleep', ms=100)
+        s.ctl('q')
+        # nobody reads at B now: a second delivery would sit in ServeHTTP; a reader started afterwards would get it
+        r2 = s.op('r', end='B', addr='A')
+        s.ctl('sleep', ms=100)
+        s.ctl('q')
+        s.ctl('cancel', id=r2)
+        s.wait([r2], ms=10000)
+        s.ctl('q')
     elif variant == 'blocked-read':
         r = s.op('r', end='B', addr='A')
         s.ctl('sleep', ms=30)
@@ -644,7 +665,8 @@ def generate(tier, rng):
         out.append(websocket_ctx(rng, 'blocked-write', False))
         for v in ('blocked-read', 'pre-read', 'blocked-serve', 'pre-serve', 'pre-serve-reader', 'fresh-blocked-serve'):
             out.append(http_ctx(rng, v))
-        for v in ('blocked-write', 'pre-write', 'unreachable', 'unreachable-twice', 'unreachable-after-timeout', 'blocked-write-timeout-cancel', 'blocked-read'):
+        for v in ('blocked-write', 'pre-write', 'unreachable', 'unreachable-twice', 'unreachable-after-timeout', 'blocked-write-timeout-cancel', 'blocked-read',
+                  'lost-reply-0', 'lost-reply-1', 'lost-reply-3'):
             out.append(loop_ctx(rng, v))
     # raw inputs: ~500 (quick) / ~20000 (thorough)
     for _ in range(10 if quick else 330):
